@@ -142,9 +142,9 @@ Lemma struct_shape pt fs i v : dec_g pt (SStruct fs) i = Some v ->
   exists f xs vs, strip i = Arr f xs /\ length xs = length fs /\ v = VStruct vs /\
     Forall2 (fun s xv => dec_g pt s (fst xv) = Some (snd xv)) fs (combine xs vs).
 Proof.
-  rewrite dec_g_struct. destruct (is_nil (strip i)); [left; reflexivity|]. right.
+  rewrite dec_g_struct. destruct (is_nil (strip i)); [left; reflexivity|]. right. revert H.
   destruct (strip i) as [| | | | | |f xs| | | |]; try discriminate.
-  destruct (dec_fields pt fs xs) as [vs|] eqn:E; [|discriminate]. injection H as <-.
+  destruct (dec_fields pt fs xs) as [vs|] eqn:E; [|discriminate]. intros H. injection H as <-.
   exists f, xs, vs. destruct (dec_fields_length _ _ _ _ E). repeat split; auto. apply dec_fields_each. exact E.
 Qed.
 
@@ -153,14 +153,12 @@ Lemma point_shape i p : dec_s SPoint i = Some p ->
   (exists f, strip i = Arr f [] /\ p = VOrigin) \/
   (exists f g n h bs, strip i = Arr f [UInt g n; h] /\ dec_bytes h = Some bs /\ p = VPoint n bs).
 Proof.
-  unfold dec_s. cbn [dec_g]. destruct (is_nil (strip i)); [left; reflexivity|]. right.
+  unfold dec_s. cbn [dec_g]. intros H0. destruct (is_nil (strip i)); [left; reflexivity|]. right. revert H0.
   unfold dec_point. destruct (strip i) as [| | | | | |f xs| | | |]; try discriminate.
-  destruct xs as [|a [|b [|c r]]]; try discriminate.
-  - intros H. injection H as <-. left. eauto.
-  - destruct a; discriminate.
+  destruct xs as [|a [|b [|c r]]]; try discriminate; try (destruct a; discriminate).
+  - intros E. injection E as <-. left. eauto.
   - destruct a; try discriminate. destruct (dec_bytes b) as [bs|] eqn:B; [|discriminate].
-    intros H. injection H as <-. right. exists f, f0, n, b, bs. auto.
-  - destruct a; discriminate.
+    intros E. injection E as <-. right. exists f, f0, n, b, bs. auto.
 Qed.
 
 (* a plain item: no tag, no simple value *)
@@ -175,9 +173,9 @@ Proof.
 Qed.
 
 Lemma bool_shape pt i v : dec_g pt SBool i = Some v -> is_nil (strip i) = false ->
-  exists b, strip i = Simple Fimm (if b then 21 else 20) /\ v = VBool b.
+  exists b : bool, strip i = Simple Fimm (if b then 21 else 20) /\ v = VBool b.
 Proof.
-  cbn [dec_g]. intros H N. rewrite N in H. destruct (strip i) as [| | | | | | | | |f v0|]; try discriminate.
+  cbn [dec_g]. intros H Hn. rewrite Hn in H. destruct (strip i) as [| | | | | | | | |f v0|]; try discriminate.
   destruct f; try discriminate. destruct (v0 =? 20) eqn:A.
   - injection H as <-. apply N.eqb_eq in A. subst. exists false. auto.
   - destruct (v0 =? 21) eqn:B; [|discriminate]. injection H as <-. apply N.eqb_eq in B. subst. exists true. auto.
@@ -186,11 +184,15 @@ Qed.
 Lemma bytes_shape pt i v : dec_g pt SBytes i = Some v -> is_nil (strip i) = false ->
   exists bs, v = VBytes bs /\ ((exists f, strip i = BStr f bs) \/ (exists cs, strip i = BStrI cs /\ bs = flat_map snd cs)).
 Proof.
-  cbn [dec_g]. intros H N. rewrite N in H. destruct (strip i); try discriminate; cbn in H; injection H as <-; eauto.
+  cbn [dec_g]. intros H Hn. rewrite Hn in H. destruct (strip i); try discriminate; cbn in H; injection H as <-.
+  - eexists. split; [reflexivity|]. left. eauto.
+  - eexists. split; [reflexivity|]. right. eauto.
 Qed.
 
 Lemma text_shape pt i v : dec_g pt SText i = Some v -> is_nil (strip i) = false ->
   exists bs, v = VText bs /\ ((exists f, strip i = TStr f bs) \/ (exists cs, strip i = TStrI cs /\ bs = flat_map snd cs)).
 Proof.
-  cbn [dec_g]. intros H N. rewrite N in H. destruct (strip i); try discriminate; injection H as <-; eauto.
+  cbn [dec_g]. intros H Hn. rewrite Hn in H. destruct (strip i); try discriminate; injection H as <-.
+  - eexists. split; [reflexivity|]. left. eauto.
+  - eexists. split; [reflexivity|]. right. eauto.
 Qed.
